@@ -228,6 +228,8 @@ def h_mixture_cached(ctx, skel, distr):
 
 def cases(tier):
     cs = [Case(f"spans:{sk}", h_spans, dict(skel=sk)) for sk in SKELS]
+    if tier == "thorough":
+        cs += [Case(f"spans:{sk}", h_spans, dict(skel=sk), weight=20) for sk in SK.random_names(6)]
     for sk in ("two_tree", "two_parents", "disjoint_node", "missing_sample", "cat3"):
         for d in ("lognorm", "gamma"):
             cs.append(Case(f"mixture:{sk}:{d}", h_mixture, dict(skel=sk, distr=d)))
